@@ -930,7 +930,13 @@ func stableCell(cell ssa.Value, seen map[ssa.Value]bool) bool {
 					}
 				}
 				if startedAsGoroutine(r) {
-					return false // runs concurrently with the assignment
+					// the goroutine runs concurrently with whatever the spawner does after the go statement:
+					// the variable is stable only if it is never assigned after the closure was created
+					for _, ref2 := range *c.Referrers() {
+						if st, isStore := ref2.(*ssa.Store); isStore && mayPrecede(r, st) {
+							return false
+						}
+					}
 				}
 			default:
 				return false
